@@ -148,7 +148,8 @@ func (p *parser) alias() ast.Expression {
 			mostFitting = &checkAliasResult{matchedAliases[i], errs, funcInstantiation, structTypeInstantiation, args}
 		}
 
-		if args != nil && len(errs) == 0 {
+		// warnings (for example from the body of an instantiated generic function) do not make the alias unfit
+		if args != nil && !slices.ContainsFunc(errs, func(err ddperror.Error) bool { return err.Level == ddperror.LEVEL_ERROR }) {
 			// log the errors that occured while parsing
 			apply(p.errorHandler, errs)
 			return callOrLiteralFromAlias(matchedAliases[i], args, funcInstantiation, structTypeInstantiation)
@@ -471,7 +472,7 @@ func (p *parser) InstantiateGenericFunction(genericFunc *ast.FuncDecl, genericTy
 	decl.Body = declParser.blockStatement(declParser.scope()).(*ast.BlockStmt)
 	declParser.ensureReturnStatementPresent(&decl, decl.Body)
 
-	if errorCollector.DidError() {
+	if slices.ContainsFunc(errorCollector.Errors, func(err ddperror.Error) bool { return err.Level == ddperror.LEVEL_ERROR }) {
 		// remove the instantiation as we errored
 		genericFunc.Generic.Instantiations[genericModule] = slices.DeleteFunc(genericFunc.Generic.Instantiations[genericModule], func(f *ast.FuncDecl) bool { return f == &decl })
 	}
